@@ -26,10 +26,13 @@ SpecCx(t) == [illegal |-> SpecIllegal, reserved |-> SpecReserved, lc |-> t.lc]
 ImplCx(t) == IF t.flavor = "ufo" THEN [illegal |-> UfoLibIllegal, reserved |-> UfoLibReserved, lc |-> t.lc]
              ELSE SpecCx(t)
 
-(* long texts travel run-length encoded: <<code, count>> pairs *)
+(* long texts travel run-length encoded: a negative entry -n repeats the code point before
+   it n more times; texts without a run are themselves *)
 RECURSIVE UnRleFrom(_, _, _)
-UnRleFrom(r, i, acc) == IF i > Len(r) THEN acc ELSE UnRleFrom(r, i + 1, acc \o [j \in 1..r[i][2] |-> r[i][1]])
-UnRle(r) == UnRleFrom(r, 1, <<>>)
+UnRleFrom(r, i, acc) == IF i > Len(r) THEN acc
+                        ELSE IF r[i] < 0 THEN UnRleFrom(r, i + 1, acc \o [j \in 1..(-r[i]) |-> r[i - 1]])
+                        ELSE UnRleFrom(r, i + 1, Append(acc, r[i]))
+UnRle(r) == IF \A i \in 1..Len(r) : r[i] >= 0 THEN r ELSE UnRleFrom(r, 1, <<>>)
 
 (* what the specification predicts for the call that was made *)
 Predict(ci, st, user, E) ==
